@@ -47,6 +47,9 @@ def main(argv=None) -> int:
 
 
 if __name__ == "__main__":
-    rc = main()
-    sys.stdout.flush()
+    try:
+        rc = main()
+        sys.stdout.flush()
+    except BrokenPipeError:
+        rc = 2
     os._exit(rc)
